@@ -1,23 +1,31 @@
 /-
 C19 — NTS server answers are authenticated and carry valid fresh cookies.
 
-Model: `NtpVerif.Model.Server`.  Cryptography is NOT modelled: a response records whether it is serialised
-under the cookie's server-to-client key (`cipher`) and how many fresh cookies of which length it carries in
-its encrypted part.  That the AEAD really authenticates the datagram and that every fresh cookie decodes, under
-the server's current keys, to the request cookie's session keys is established on the real implementation only
-(oracle clauses `c19_not_authenticated`, `c19_cookie_keys`, evaluated with the client's s2c key and the real
-`KeySet` on every answered NTS request) — hence `full_statement_proved` is false for this property.
+Models: `NtpVerif.Model.Server` (decision logic, counts and lengths), and — for the cryptographic sentences —
+the wire cluster's field codec `NtpVerif.Model.ExtField` with the IDEAL AEAD of `NtpVerif.Model.Cipher`
+(an oracle table of the encryptions performed; real AES-SIV is trusted to behave like it and is exercised on every
+answered NTS request by the oracle clauses `c19_not_authenticated`, `c19_cookie_keys`) and the key-set model
+`NtpVerif.Model.KeySet` of C26.  The server model records of an NTS time answer that it is serialised under the
+cookie's s2c key (`cipher`) with `k` fresh cookies of length `freshCookieLen alg` in the encrypted part; the two
+theorems below say what that means on the wire.
 
   sentence of the property                                               theorem
   failed authentication: never time, only NTS-NAK, or DENY if policy
     denies the client                                                    auth_failure_nak_or_policy_deny
   time answer to an authenticated request is under the s2c key, with
     nothing outside the authenticated / encrypted part                   time_answer_under_s2c_key
+  … and carries an authenticator — FALSE as stated (finding F-C19a)     auth_counterexample
+    true for NTPv5, with an identifier, or a cookie among the first 8    time_answer_has_authenticator
   at most one fresh cookie per cookie or placeholder, never more than
     eight, none larger than the field it replaces                        fresh_cookie_bounds
   fresh cookies travel only inside the encrypted part                    cookies_only_encrypted
+  the client can authenticate the answer with the cookie's s2c key and
+    finds the fresh cookies in the encrypted list                        time_answer_authenticates
+  every fresh cookie decodes, under the current keys, to the session
+    keys of the request's cookie (and has the modelled length)           fresh_cookies_decode_to_session_keys
 -/
 import NtpVerif.Proofs.Server
+import NtpVerif.Proofs.ServerNts
 
 namespace NtpVerif.C19
 open NtpVerif.Server NtpVerif.RespSize
@@ -71,6 +79,73 @@ theorem time_answer_under_s2c_key {info env req alg r}
   all_goals first
     | (simp at h; done)
     | (simp only [Built.ok.injEq] at h; subst h; exact ⟨rfl, rfl⟩)
+
+/-- the serialiser writes the NTS authenticator (the encrypted field) only when the answer has an authenticated
+    or an encrypted field (`ExtensionFieldData::serialize`) -/
+def HasAuthenticator (r : Response) : Prop := ¬ (r.auth = [] ∧ r.enc = [])
+
+/-- authenticated and encrypted fields of the NTS time answer to a request (they do not depend on the clock or
+    the synchronisation state) -/
+def ntsFields (info : Info) (req : Req) (alg : Nat) : List RField × List RField :=
+  (if req.version = 5 then req.auth.filterMap (echoV5 info.bloom) ++ [.draft] else req.auth.filterMap uidOf,
+   freshCookies alg req)
+
+theorem build_ntsFields {info env req alg r} (h : build info env req (some alg) .time = .ok r) :
+    (r.auth, r.enc) = ntsFields info req alg := by
+  simp only [build, ntsTimestampResponse] at h
+  repeat' split at h
+  all_goals first
+    | (simp at h; done)
+    | (simp only [Built.ok.injEq] at h; subst h; simp [ntsFields, *])
+
+/-- The sentence "every time answer to an authenticated request can be authenticated by the client" as stated:
+    the answer always has an authenticator. -/
+def AuthFull : Prop :=
+  ∀ (info : Info) (req : Req) (alg : Nat), req.version ≠ 3 →
+    ¬ ((ntsFields info req alg).1 = [] ∧ (ntsFields info req alg).2 = [])
+
+/-- finding F-C19a: a valid NTPv4 NTS request without identifier whose cookie is the ninth authenticated field -/
+def reqA : Req :=
+  { len := 400, fv := 4, parse := .ok, version := 4, client := true, poll := 6, xmit := [1, 2, 3, 4, 5, 6, 7, 8],
+    reft := [0, 0, 0, 0, 0, 0, 0, 0], untrusted := [],
+    auth := List.replicate 8 (.unknown 0x4242 4) ++ [.cookie 104, .placeholder 104], enc := [],
+    cookie := some 15, encw := 40, mac := 0 }
+
+def infoA : Info :=
+  { stratum := 2, refid := [1, 2, 3, 4], leap := 0, precision := 4096, rootDelay := 65536, bloom := [], keysOk := true }
+
+/-- The unchanged code VIOLATES that sentence: `nts_timestamp_response` looks for cookies among the first eight
+    fields only and echoes identifiers only, so the answer to `reqA` has neither authenticated nor encrypted
+    fields and is serialised without authenticator (known finding F-C19a; replayed on the real server as corpus
+    case 6 of every main stream). -/
+theorem auth_counterexample : ¬ AuthFull := by
+  intro h
+  exact h infoA reqA 15 (by decide) (by decide)
+
+/-- The sentence holds whenever the answer has something to authenticate: NTPv5 (draft identification), an
+    identifier among the authenticated fields, or a sufficiently long cookie / placeholder among the first eight. -/
+theorem time_answer_has_authenticator {info env req alg r}
+    (h : build info env req (some alg) .time = .ok r)
+    (hc : req.version = 5 ∨ (∃ b, Field.uid b ∈ req.auth) ∨ freshCookies alg req ≠ []) : HasAuthenticator r := by
+  simp only [build, ntsTimestampResponse] at h
+  split at h
+  · simp at h
+  · split at h
+    · simp at h
+    · split at h
+      · simp at h
+      · simp only [Built.ok.injEq] at h
+        subst h
+        intro ⟨ha, he⟩
+        simp only at ha he
+        rcases hc with h5 | ⟨b, hb⟩ | hck
+        · simp [h5] at ha
+        · split at ha
+          · simp at ha
+          · have : RField.uid b ∈ req.auth.filterMap uidOf := by
+              simp only [List.mem_filterMap]; exact ⟨_, hb, rfl⟩
+            rw [ha] at this; simp at this
+        · exact hck he
 
 /-- cookie and placeholder fields of the request that the server looks at: those among the first eight
     authenticated / encrypted fields -/
@@ -257,6 +332,129 @@ theorem cookies_only_encrypted {info env req c a r} (h : build info env req c a 
         · simp at h
         · simp only [Built.ok.injEq] at h; subst h; rfl
 
+/-! #### the cryptographic sentences, relative to the ideal AEAD -/
+
+section crypto
+open NtpVerif.Wire
+
+/-- **time_answer_authenticates.**  The server serialises the extension fields of an NTS time answer — echoed
+    fields `auth`, fresh cookies `cs` in the encrypted part, nothing in clear — with `EFData.serialize` under the
+    request cookie's server-to-client key; the cipher produced `nonce` (16 octets) and `ct`, i.e. the AEAD table
+    gains the entry (`s2c`, `nonce`, associated data = everything of the answer before the encrypted field,
+    `ct` ↦ plaintext).  Then:
+    * the plaintext that was sealed is exactly the serialisation of the cookie fields, and the encrypted field
+      follows the authenticated fields;
+    * a client holding `s2c` that has walked the answer `hdr ++ bytes ++ tail` up to the encrypted field
+      decrypts it successfully — the answer's own prefix is the associated data — and obtains exactly the
+      fresh cookies in its encrypted list, the fields before it becoming authenticated. -/
+theorem time_answer_authenticates (t : Table) (ver : Ver) (hdr tail : List UInt8) (auth : List EF) (cs : List (List UInt8))
+    (s2c nonce ct : (List UInt8)) (hcs : ∀ b ∈ cs, CookieOk b) (hn : nonce.length = 16) (hc : ct.length ≤ 65535)
+    {bytes pt : (List UInt8)}
+    (hser : EFData.serialize { authenticated := auth, encrypted := cs.map .cookie, untrusted := [] } ver
+              (some (nonce, ct)) = .ok (bytes, some pt)) :
+    ∃ authBytes, serializeFields 16 ver auth = .ok authBytes ∧
+      pt = (cs.map cookieField).flatten ∧
+      bytes = authBytes ++ (toBE 2 tyEncrypted ++ toBE 2 (8 + nm4 nonce.length + nm4 ct.length) ++ encMsg nonce ct) ∧
+      ∀ (st : EFState) (wl : Nat),
+        efStep (Table.decrypt (sealEntry s2c nonce (hdr ++ authBytes) ct pt :: t)) (.key s2c)
+            (hdr ++ bytes ++ tail) hdr.length ver st authBytes.length tyEncrypted (encMsg nonce ct) wl
+          = .ok { ef := { authenticated := st.ef.authenticated ++ st.ef.untrusted,
+                          encrypted := st.ef.encrypted ++ cs.map .cookie, untrusted := [] },
+                  size := authBytes.length + wl, valid := st.valid, cookie := none } := by
+  have hpt := serializeFields_cookies ver cs hcs
+  unfold EFData.serialize at hser
+  simp only [bind, Except.bind, pure, Except.pure] at hser
+  cases hA : serializeFields 16 ver auth with
+  | error e =>
+    exfalso
+    split at hser
+    · simp only [hA] at hser; cases hser
+    · rename_i hne
+      simp only [ne_eq, List.map_eq_nil_iff, not_or, Decidable.not_not] at hne
+      -- both lists empty: then `auth = []` serialises to `[]`
+      rw [hne.1] at hA; simp [serializeFields] at hA
+  | ok authBytes =>
+    refine ⟨authBytes, rfl, ?_⟩
+    by_cases hne : auth ≠ [] ∨ cs.map EF.cookie ≠ []
+    · rw [if_pos hne] at hser
+      simp only [hA] at hser
+      cases hE : encodeEncrypted (List.map EF.cookie cs) ver nonce ct with
+      | error e => simp [hE] at hser
+      | ok v =>
+        simp only [hE, serializeUntrusted, Except.ok.injEq, Prod.mk.injEq, Option.some.injEq,
+          List.append_nil] at hser
+        obtain ⟨hb, hp⟩ := hser
+        unfold encodeEncrypted at hE
+        simp only [hpt, bind, Except.bind, pure, Except.pure] at hE
+        split at hE
+        · cases hE
+        · simp only [Except.ok.injEq] at hE
+          subst hE
+          simp only at hb hp
+          subst hp
+          refine ⟨rfl, ?_, ?_⟩
+          · rw [← hb]; simp [encMsg, List.append_assoc]
+          · intro st wl
+            apply client_step_recovers_cookies t s2c nonce ct (hdr ++ authBytes) _ ver cs hdr.length
+              authBytes.length wl st hcs hn hc
+            unfold slice?
+            rw [if_pos (by simp [← hb])]
+            rw [← hb]
+            simp only [List.append_assoc, List.drop_zero, Nat.sub_zero, Option.some.injEq]
+            rw [← List.append_assoc hdr authBytes, show hdr.length + authBytes.length = (hdr ++ authBytes).length by simp]
+            exact List.take_left
+    · rw [if_neg hne] at hser
+      simp only [serializeUntrusted, Except.ok.injEq, Prod.mk.injEq] at hser
+      cases hser.2
+
+end crypto
+
+section cookies
+open NtpVerif.KeySet
+variable {κ : Type} [DecidableEq κ]
+
+/-- **fresh_cookies_decode_to_session_keys.**  A fresh cookie is `KeySet::encode_cookie` of the request cookie's
+    algorithm and session keys `c` under the primary key (`nonce`, `ct`: what the cipher produced; `e`: the table
+    entry of that encryption).  Under the server's current key set, with any table of distinct-nonce encryptions
+    containing that entry, it decodes to exactly `c` — the same algorithm, s2c and c2s keys — and its length is
+    the one the server model books for it (`freshCookieLen`: 104 octets for AES-SIV-CMAC-256, 168 for -512). -/
+theorem fresh_cookies_decode_to_session_keys (t : Table κ) (hf : Fresh t) (ks : KeySet κ)
+    (hp : ks.primary < 4294967296) (ho : ks.idOffset < 4294967296) (c : Cookie) (hwf : c.WF)
+    (nonce ct b : (List UInt8)) (e : Enc κ) (henc : encode ks c nonce ct = some (b, e)) (he : e ∈ t) :
+    decode t ks b = some c ∧ b.length = Server.freshCookieLen c.alg := by
+  obtain ⟨k, hk, hn, hct, hb, hee⟩ := encode_some henc
+  subst hee
+  constructor
+  · rw [hb]
+    refine decode_issued (ks := ks) ⟨k, nonce, ct, c.plaintext⟩ c hwf _ hn hct rfl ?_ (decrypt_fresh_mem hf he)
+    have : ((ks.primary + ks.idOffset) % M32 % M32 + M32 - ks.idOffset % M32) % M32 = ks.primary := by
+      simp only [M32] at *; omega
+    rw [this]; exact hk
+  · rw [hb]
+    have hpl := plaintext_length c
+    simp only [mkCookie, List.length_append, be32_length, be16_length, hn, hct, hpl, Server.freshCookieLen]
+    rcases hwf with ⟨h1, h2, h3⟩ | ⟨h1, h2, h3⟩ <;> simp [h1, h2, h3]
+
+omit [DecidableEq κ] in
+/-- cookie generation fails (a panic in `encode_cookie`) exactly when the primary index is out of range — the
+    server model's `keysOk` — provided the cipher returns a 16-octet nonce and a 16-octet tag -/
+theorem encode_panics_iff (ks : KeySet κ) (c : Cookie) (nonce ct : (List UInt8)) (hn : nonce.length = 16)
+    (hct : ct.length = c.plaintext.length + 16) :
+    encode ks c nonce ct = none ↔ ¬ ks.primary < ks.keys.length := by
+  unfold encode
+  cases hk : ks.keys[ks.primary]? with
+  | none =>
+    simp only [true_iff]
+    intro hlt
+    rw [List.getElem?_eq_getElem hlt] at hk; cases hk
+  | some k =>
+    have hlt : ks.primary < ks.keys.length := by
+      apply Decidable.byContradiction; intro hnl
+      rw [List.getElem?_eq_none (by omega)] at hk; cases hk
+    simp [hn, hct, hlt]
+
+end cookies
+
 /-! #### non-vacuity: the documented quirk — the first eight fields are taken BEFORE filtering -/
 
 def reqN (fs : List Field) : Req :=
@@ -276,3 +474,7 @@ end NtpVerif.C19
 #print axioms NtpVerif.C19.time_answer_under_s2c_key
 #print axioms NtpVerif.C19.fresh_cookie_bounds
 #print axioms NtpVerif.C19.cookies_only_encrypted
+#print axioms NtpVerif.C19.auth_counterexample
+#print axioms NtpVerif.C19.time_answer_has_authenticator
+#print axioms NtpVerif.C19.time_answer_authenticates
+#print axioms NtpVerif.C19.fresh_cookies_decode_to_session_keys
